@@ -1,1 +1,2 @@
 import PoolProofs.C09
+import PoolProofs.C09Lemmas
